@@ -24,6 +24,9 @@ Definition disj (a b : Z * Z) : Prop := fst a + snd a <= fst b \/ fst b + snd b 
 Fixpoint pairwise {A} (R : A -> A -> Prop) (l : list A) : Prop :=
   match l with [] => True | x :: r => Forall (R x) r /\ pairwise R r end.
 
+(* total length of a list of ranges *)
+Definition total (l : list (Z * Z)) : Z := fold_right (fun r a => snd r + a) 0 l.
+
 (* storage: the ranges of the nodes that own bytes (non-shared) and the free gaps *)
 Definition rng (n : node) : Z * Z := (n_off n, Z.of_nat (length (n_key n))).
 Definition nonshared (n : node) : bool := negb (n_shared n).
